@@ -348,6 +348,18 @@ impl<'a> LiveEvents<'a> {
 
                     let tag_s = SfTag::from_optional_cow(&tag);
 
+                    let location = match self.input {
+                        Some(input)
+                            if matches!(
+                                style,
+                                ScalarStyle::SingleQuoted | ScalarStyle::DoubleQuoted
+                            ) =>
+                        {
+                            crate::location::trim_quoted_scalar_span(input, location)
+                        }
+                        _ => location,
+                    };
+
                     let ev = Ev::Scalar {
                         value: val,
                         tag: tag_s,
